@@ -2045,6 +2045,9 @@ def gh_grid(rng):
         j = int(rng.integers(3, 6))
         xs = sorted(set(float(v) / 2 ** j for v in rng.integers(-12, 13, size=int(rng.integers(2, 6)))))
         ys = sorted(set(float(v) / 2 ** j for v in rng.integers(-12, 13, size=int(rng.integers(2, 5)))))
+        # every axis needs two points: the automatic weights of a separated grid (asked for by Grid.scale) are undefined for a single one
+        xs = xs if len(xs) > 1 else [xs[0], xs[0] + 2.0 ** -j]
+        ys = ys if len(ys) > 1 else [ys[0], ys[0] + 2.0 ** -j]
         ext = max(max(abs(v) for v in xs), max(abs(v) for v in ys), 2.0 ** -j)
         return {'kind': 'cart-separated', 'xs': xs, 'ys': ys}, float([2 * ext, ext, 3 * ext][int(rng.integers(0, 3))])
     g = grid_only(rng)
@@ -2309,7 +2312,8 @@ def run_ghist(hz, case):
             try:
                 g2 = apply_gop(g, st)
             except Exception as ex:      # noqa
-                bad.append(('grid-history op-raises', '%s(%r) [%s] on a %s grid raises %s' % (st['op'], st['args'], st['how'], kind, type(ex).__name__), si)); break
+                # not a clause of C13 (the property starts from a grid that exists): the history cannot be observed -> broken correspondence
+                script.append((None, ('note', '%s(%r) [%s] on a %s grid raises %s' % (st['op'], st['args'], st['how'], kind, type(ex).__name__)))); break
             if st['how'] != 'inplace':
                 old = prev
             g = g2
@@ -2430,7 +2434,7 @@ def play_script(ctx, case, script, answers, stream='C13 grid-history'):
 
 
 def check_grid_history(ctx, hz):
-    cases = _ghist_directed() + [gen_ghist_case(ctx.rng) for _ in range(ctx.scale(160, 4000))]
+    cases = _ghist_directed() + [gen_ghist_case(ctx.rng) for _ in range(ctx.scale(160, 2500))]
     jobs = []
     for case in cases:
         bad, script, stats = run_ghist(hz, case)
@@ -2640,7 +2644,7 @@ def run_radial_extreme(hz, case):
 
 
 def check_scales(ctx, hz):
-    cases = _scale_directed() + [gen_scale_case(ctx.rng) for _ in range(ctx.scale(90, 2500))]
+    cases = _scale_directed() + [gen_scale_case(ctx.rng) for _ in range(ctx.scale(90, 1500))]
     jobs = []
     for case in cases:
         bad, script, stats = run_scale(hz, case)
